@@ -14,7 +14,11 @@ INVALID_STMT = [
     "foreach v in [1] x = 1; }", "function 3() { }", "function q(3) { }", "function q(#) { }", 'function "q"() { }',
     "if a { x = 1; }", "if (a) x = 1;", "while a { }", "switch a { }", "switch (a) { foo { } }",
     "switch (a) { default { } default { } }", "return 1", "return;", "x = /a/x;", "x = 1 +* 2;", "else { x = 1; }", "x = ;",
-    "case 1 { }", "x = 99999999999999999999;", "x = [1,, 2];", "x = f(1,, 2);", "x = f(1;", "}", "x = 1; }", "x = (;", "x = );",
+    "case 1 { }", "x = 99999999999999999999;",
+    # constructs that leave no value, where a value is needed
+    "a = b = 3;", "y = x++;", "x += 1 + 2;", "return (x = 1);", "z = if (c) { 1; };", "z = while (c) { };", "return foreach v in [1] { };",
+    "y = function ff() { return 1; };", "return switch (1) { case 2 { 1; } };", "x = 1 + (y = 2);", "t(x = 1);", "x = [y = 1];", "return x -= 1;",
+    "if (x = 1) { }", "while (x++) { }", "z = local w;", "x = [1,, 2];", "x = f(1,, 2);", "x = f(1;", "}", "x = 1; }", "x = (;", "x = );",
 ]
 INVALID_EXPR = ['"unterminated', "/unterminated", "(1 + ", "[1, 2", '{"a": 1', "1 + ", "* 2", "a ? b ? 1 : 2 : 3", "#", "1 @ 2", "\x00",
                 "99999999999999999999", "(3 = 4)", "f(1,, 2)", ")", "if", "(a ? 1 : b ? 2 : 3)", "(1 += 2)", '("s" -= 1)', "[1 *= 2]"]
@@ -38,7 +42,7 @@ STMT_CONTEXTS = [
 EXPR_CONTEXTS = [
     "x = %s;", "return %s;", "if (%s) { x = 1; }", "while (%s) { x = 1; }", "x = c ? %s : 2;", "x = c ? 1 : %s;", "x = f(%s);",
     "x = f(1, %s, 3);", "x = [1, %s];", 'x = {"k": %s};', "x = {%s: 1};", "x = a[%s];", "foreach v in %s { x = 1; }",
-    "switch (%s) { case 1 { } }", "switch (c) { case %s { } }", "x = 1 + %s;", "x = -%s;", "x = (%s);",
+    "switch (%s) { case 1 { } }", "switch (c) { case %s { } }", "x = 1 + %s;", "x = - %s;", "x = (%s);",
 ]
 
 PREFIXES = [
